@@ -353,6 +353,23 @@ def run_case(exe, spec, chunks, cols=80, rows=24, raw_initial=False, probe=None,
     between_reads: list of "keep" | "raw" | "cooked": with `pause 1` in the spec the child stops itself after every
     read; the driver then records the terminal settings (key "stops") and switches them as told before resuming."""
     s = Session(exe, spec, cols, rows, raw_initial)
+    try:
+        return _run_case(s, chunks, rows, probe, events, between_reads, sync_keys)
+    except BaseException:
+        # never leave a (possibly stopped) child or its spec file behind
+        try:
+            os.kill(s.pid, signal.SIGKILL)
+            os.waitpid(s.pid, 0)
+        except OSError:
+            pass
+        try:
+            os.unlink(s.spec_path)
+        except OSError:
+            pass
+        raise
+
+
+def _run_case(s, chunks, rows, probe, events, between_reads, sync_keys):
     stops = []
 
     def on_stop(sess):
